@@ -352,6 +352,14 @@ func (e *Engine) renderValue(st *State, a Value, verb byte) *StrV {
 		if v.text != nil && verb != 'd' {
 			return v.text
 		}
+	case *SliceV:
+		// %s of a []byte renders the bytes
+		if v.bytes && verb == 's' {
+			if named, ok := iv.typ.(*types.Named); ok && e.hasStringMethod(named) {
+				return nil
+			}
+			return e.sliceAsStr(st, v)
+		}
 	}
 	return nil
 }
